@@ -21,7 +21,7 @@ Alphabet ==
       { InsertV("T1", << <<I(k), I(v)>> >>) : k \in Keys, v \in Vals }
  \cup { UpdateA("T1", << [c |-> "V", e |-> Lit(I(v))] >>, IdEq(k)) : k \in Keys, v \in Vals }
  \cup { DeleteA("T1", IdEq(k)) : k \in Keys }
- \cup { CreateIV, DropIV }
+ \cup { CreateIV, DropIV, [a |-> "trunc", t |-> "T1"] }       \* TRUNCATE is transactional too (C13 names it)
  \cup { [a |-> x] : x \in {"begin", "commit", "rollback"} }
  \cup { [a |-> x, n |-> n] : x \in {"sp", "rollto", "release"}, n \in Names }
 
